@@ -65,6 +65,31 @@ def run(rep, tier):
                 kind = what.split("(")[0].split(" ")[0].split("=")[0]
                 rep.violation("grid:%s:%s" % (kind, "pow2" if (x["nt"] & (x["nt"] - 1)) == 0 else "npow2"),
                               "%s on grid nr=%d nt=%d nc=%d auto=%s" % (what, x["nr"], x["nt"], x["nc"], x["auto"]), replay=x)
+    # the parametric constructor (uniform / anisotropic division, divideBy2 refinement) is a third construction path: every
+    # query of its grid agrees with its own coordinates and with a twin built through the vector constructor
+    ppath = os.path.join(vlib.BUILD, "cases", "c17_%s_param.ndjson" % tier)
+    params = []
+    for nrexp in ((2, 3, 4, 5) if thorough else (2, 3, 4)):
+        for a in range(0, nrexp + (1 if thorough else 0)):
+            for d in ((0, 1, 2, 3) if thorough else (0, 1, 2)):
+                for ntexp in ((-1, 2, 3, 5) if thorough else (-1, 3)):
+                    for (R0, rr) in ((1e-5, 0.66), (0.1, 1.3), (0.3, 0.3)):
+                        for split in (-1.0, 0.7):
+                            if nrexp + d <= 6:
+                                params.append({"R0": R0, "R": 1.3, "nrexp": nrexp, "ntexp": ntexp, "rr": rr, "a": a, "d": d, "split": split})
+    with open(ppath, "w") as f:
+        for q in params:
+            f.write(json.dumps(q) + "\n")
+    rc, recs, out = vlib.run_driver(exe, [ppath, "param"], timeout=2400)
+    summ = [x for x in recs if x.get("summary")]
+    if rc != 0 or not summ:
+        rep.violation("driver:crash:param", "grid driver crashed on the parametric constructor (rc=%s): %s" % (rc, out[-600:]), replay={"params": ppath})
+    else:
+        rep.cov["grids_through_parametric_constructor"] = summ[0]["param_grids"]
+        for x in recs:
+            if x.get("fail") and not x["what"].startswith("constructor threw"):      # which parameter sets are accepted is C18's question
+                rep.violation("grid:param:%s" % x["what"].split("(")[0].split(" ")[0].split("=")[0], "%s on the grid of the parametric constructor %s" % (x["what"], json.dumps(x["param"])), replay=x)
+            rep.case(key="param", nontrivial=True) if False else None
     rep.cov["exhaustive"] = True
     rep.cov["rule"] = ("every grid of the initial family and of its coarsening chain is one instance (state of the TLC run): sizes x every "
                        "explicit split x automatic split (x spacings in {1,2,3} for the non-uniform family); non-trivial = more than 4 nodes")
